@@ -22,4 +22,33 @@ def nested_variable_untyped(c, problems):
     """document has a variable nested in a list/object literal and every complaint is about the
     argument value delivered for it"""
     return _has_nested_variable(c.doc) and bool(problems) and all(
-        ("a value of another type" in p) or ("specification prescribes" in p) or ("do not coerce" in p) for p in problems)
+        ("a value of another type" in p) or ("do not coerce" in p) for p in problems)
+
+
+def _embedded_exc_messages(j, acc, depth=0):
+    if isinstance(j, dict):
+        if "x" in j and "m" in j and depth > 0: acc.add(j["m"])
+        for v in j.values(): _embedded_exc_messages(v, acc, depth + 1)
+    elif isinstance(j, list):
+        for v in j: _embedded_exc_messages(v, acc, depth + 1)
+    return acc
+
+def shared_exception_instance(c, problems):
+    """an exception INSTANCE embedded in resolver data is reached through two response keys: the engine
+    patches path/locations into the instance only once, so the second report repeats the first path"""
+    msgs = set()
+    for spec in (c.renv.get("resolvers") or {}).values():
+        if "v" in spec: _embedded_exc_messages(spec["v"], msgs)
+    if not msgs: return False
+    seen = {}
+    for e in c.real["errors"]:
+        if e["message"] in msgs:
+            k = (e["message"], str(e["path"]))
+            seen[k] = seen.get(k, 0) + 1
+    if not any(n >= 2 for n in seen.values()): return False
+    # nothing else may be wrong: data must agree with the model and every other error too
+    from pyval import same
+    if c.mod is None or "fail" in c.mod or not same(c.mod["data"], c.real["data"]): return False
+    other_r = sorted(str([e["path"], e["locations"]]) for e in c.real["errors"] if e["message"] not in msgs)
+    other_m = sorted(str([e["path"], sorted([l["line"], l["column"]] for l in e["locations"])]) for e in c.mod["errors"] if e["message"] not in msgs)
+    return set(other_r) == set(other_m) and len([e for e in c.real["errors"] if e["message"] in msgs]) == len([e for e in c.mod["errors"] if e["message"] in msgs])
